@@ -488,7 +488,14 @@ impl<'ast, 'm> Visit<'ast> for EffVisitor<'m> {
                 if hit {
                     self.eff.ret = true;
                 }
-                self.mutargs(&n, i.args.iter());
+                let key = if segs.len() >= 2 && segs[segs.len() - 2] != "Self" {
+                    format!("{}::{}", segs[segs.len() - 2], n)
+                } else if segs.len() >= 2 && self.self_name.is_some() {
+                    format!("{}::{}", self.self_name.as_ref().unwrap(), n)
+                } else {
+                    n.clone()
+                };
+                self.mutargs(&key, i.args.iter());
             }
         }
         visit::visit_expr_call(self, i);
